@@ -138,14 +138,14 @@ _claim('C14',
        "C14.R1 reducer argument is vals[where(label == i)] stored in slot i over range(max+1); C14.R2 NaN-initialised "
        "projection written through the same lookup; C14.R3 phase_align uses one index set for phase and value, the bin "
        "centres of define_hist_bins(0, 2pi, npoints), column = cycle; C14.R4 the bin loop of bin_by_phase covers every "
-       "allocated row (digitize classes for nbins = 2,3,5) for default and supplied edges, weighted and unweighted; each bin is filled with the mean along the sample axis of x[digitize(ip, edges) == i], the default edges are define_hist_bins(0, 2pi, nbins), an iteration skips only an empty bin, the result is nbins x x.shape[1:]; the cycles aligned are the supplied ones or the unmasked all-cycles labelling and a cycle is skipped only when another was requested or it has no samples; the interpolant gets the requested kind and extrapolates; C14.R5 get_cycle_stat is the support routine on the object's own labels, out='samples' its projection; L1.",
+       "allocated row (digitize classes for nbins = 2,3,5) for default and supplied edges, weighted and unweighted; each bin is filled with the mean along the sample axis of x[digitize(ip, edges) == i], the default edges are define_hist_bins(0, 2pi, nbins), an iteration skips only an empty bin, the result is nbins x x.shape[1:]; the cycles aligned are the supplied ones or the unmasked all-cycles labelling and a cycle is skipped only when another was requested or it has no samples; the interpolant gets the requested kind and extrapolates; C14.R5 get_cycle_stat is the support routine on the object's own labels, out='samples' its projection; C14.R6 the iterator protocol phase_align relies on yields (i, samples labelled i) for i in range(max(label)+1), checked link by link (_ensure_cycle_inputs, Cycles.iterate, IterateCycles); L1.",
        "interpolation error for non-linear profiles.",
        "term decoding with inlined label lookups + digitize index classes")
 _claim('C15',
        "C15.R1 comparator table by folding the parser's path conditions for 6 operators x 3 literal prefixes; C15.R2 "
        "conjunction with the metric on the left; C15.R3 subset / chain counters; C15.R4 every metric store is guarded or "
        "of cycle-level provenance; C15.R5 cache precondition (all-cycles unmasked vector, gap-free by C12.R1) and the "
-       "cache's own boundaries; metric values are not modified in place; C15.R6 recomputation on every pick; C15.R7 the label route and the slice-cache route delimit the augmented cycle identically (sibling agreement by substitution); C15.R8 possibly-None extents never index the values unguarded; C15.R9 per mode x cache state the stored metric is the matching support routine on (vals, own labels or the cache known to be present, func), chain metrics are the per-chain statistic on the own vectors projected onto cycles with NaN -> -1 before an integer cast, chain_ind / chain_position number chains and members from 0; C15.R10 every attribute a method reads is bound on every constructor path before the first method call needing it; C15.R11 the tabular export is built from the metric store and drops exactly the rows not matching the conditions in force.",
+       "cache's own boundaries; metric values are not modified in place; C15.R6 recomputation on every pick; C15.R7 the label route and the slice-cache route delimit the augmented cycle identically (sibling agreement by substitution); C15.R8 possibly-None extents never index the values unguarded; C15.R9 per mode x cache state the stored metric is the matching support routine on (vals, own labels or the cache known to be present, func), chain metrics are the per-chain statistic on the own vectors projected onto cycles with NaN -> -1 before an integer cast, chain_ind / chain_position number chains and members from 0; C15.R10 every attribute a method reads is bound on every constructor path before the first method call needing it; C15.R11 the tabular export is built from the metric store and drops exactly the rows not matching the conditions in force; C15.R12 on the slice-cache route and the augmented label route every cycle's slot is written once on every path with func of exactly that cycle's values, NaN exactly without extent.",
        "equality of arbitrary user functions under cache on/off; the full operation-history quantifier beyond 'each "
        "operation preserves the store invariant'.",
        "partial evaluation of path conditions on concrete strings + counter relations + C12 cover rule")
